@@ -1,6 +1,6 @@
 CONSTANTS
   Intervals = {1, 2}
-  AtDelays <- AtPast
+  AtDelays <- AtNeg
   MaxT = 2
   MaxNow = 3
   MaxAdv = 2
